@@ -236,8 +236,8 @@ def _gen_chain(rng):
 
 def cases(rng, tier):
     out = []
-    n_aut = {'quick': 150, 'thorough': 1500, 'search': 300}[tier]
-    n_tr = {'quick': 130, 'thorough': 1300, 'search': 300}[tier]
+    n_aut = {'quick': 300, 'thorough': 1500, 'search': 300}[tier]
+    n_tr = {'quick': 260, 'thorough': 1300, 'search': 300}[tier]
     n_ch = {'quick': 16, 'thorough': 100, 'search': 20}[tier]
     for L in range(1, 7):
         out.append(_ising(rng, L))
